@@ -157,7 +157,19 @@ class Session:
         if jobs:
             if verbose:
                 print('  [%s] %d obligations to the solver pool' % (self.prop, len(jobs)), flush=True)
-            res = smt.pool().run(jobs)
+            # two portfolios race per obligation: default z3 (then cvc5) and the nlsat tactic
+            jobs2 = []
+            for (key, text, to, _pf) in jobs:
+                jobs2.append((key + '#A', text, to, ['z3', 'cvc5']))
+                jobs2.append((key + '#B', text, to, ['nlsat']))
+            raw = smt.pool().run(jobs2)
+            res = {}
+            for k2, r in raw.items():
+                key = k2[:-2]
+                cur = res.get(key)
+                rank = {'unsat': 0, 'sat': 1, 'unknown': 2}
+                if cur is None or rank[r[0]] < rank[cur[0]]:
+                    res[key] = r
             byid = {ob.id: ob for ob in rest}
             retry = []
             for key, r in res.items():
